@@ -515,6 +515,8 @@ def _matmul_task(task, out):
     ns = [1, 8, 16, 17, 24, 32] if tier == "quick" else [1, 2, 8, 15, 16, 17, 24, 32, 33, 40]
     ms = [1, 7, 8, 16] if tier == "quick" else [1, 2, 7, 8, 12, 16, 24, 33]
     ps = [1, 8, 9] if tier == "quick" else [1, 3, 8, 9, 16]
+    if only is None or only[0] == "qbits_axm1":
+        _qbits_operand_cases(task, out)
     for n, m, p in itertools.product(ns, ms, ps):
         for family in ("exact", "onehot", "generic"):
             for akind in ("qint8", "qfloat8_e4m3fn", "float", "qint8@0", "qint8@-1"):
@@ -580,6 +582,56 @@ def _matmul_task(task, out):
                             exact_ok = family in ("exact", "onehot")
                             for sub, msg in _judge(y, x64, bT64, None, dt, dtname, exact_ok, m, f"torch.{fn_name} {c} {dtname}"):
                                 out["violations"].append(violation(PID, case, dict(fields, sub=sub), f"{sub}: {msg}"))
+
+
+def _qbits_operand_cases(task, out):
+    """torch.mm / matmul with an int4 / int2 right operand quantized group-wise along its *last* axis (one scale per output
+    column and group of rows), non-square.  The float operand is built group by group (qmc/wq.fill) from scale_k x (code - zp_k) with
+    power-of-two scales and every group holding the codes 0 and 2^bits-1, so that the library's quantization is exact and the oracle
+    - the exactly computed product with the *original* float matrix - does not pass through the library's own ungrouping."""
+    from optimum.quanto import quantize_weight
+
+    from .. import wq
+
+    dtname = task["dt"]
+    dt = num.DTYPES[dtname]
+    only = task.get("only")
+    for wname in ("qint4", "qint2"):
+        qt = num.qt(wname)
+        L = (1 << qt.bits) - 1
+        for m, p, gs in ((16, 8, 8), (32, 24, 16), (24, 3, 8), (64, 32, 16), (8, 17, None), (48, 16, 16), (16, 48, 4)):
+            gid, pos, ng, gsz = wq.group_ids((m, p), -1, gs)
+            k = torch.arange(ng, dtype=torch.float64).reshape(ng, 1)
+            j = torch.arange(gsz, dtype=torch.float64).reshape(1, gsz)
+            codes = (j * 7 + k * 3) % (L + 1)
+            codes[:, 0] = 0
+            codes[:, 1] = L
+            zp = (k % 3) + (L + 1) // 2 - 1
+            sc = 2.0 ** ((k % 4) - 3)
+            w64 = wq.fill((m, p), -1, gs, sc * (codes - zp), torch.float64)
+            for n in (1, 3, 17):
+                for akind in ("float", "qint8"):
+                    for fn_name in ("mm", "matmul"):
+                        c = ["qbits_axm1", wname, m, p, gs, n, akind, fn_name]
+                        if only and only != c:
+                            continue
+                        fields = {"kind": "matmul", "fn": fn_name, "act": akind, "other": f"{wname}@-1g", "dtype": dtname, "family": "exact"}
+                        case = dict(task, only=c)
+                        journal(repr(case))
+                        out["evals"] += 1
+                        out["calls"] += 1
+                        out["points"] += 1
+                        out["nontrivial"] += 1
+                        try:
+                            a, a64, _, _ = _act(akind, (n, m), dt, "exact", 0)
+                            qw = quantize_weight(w64.to(dt), qt, -1, gs)
+                            with torch.no_grad():
+                                y = torch.mm(a, qw) if fn_name == "mm" else torch.matmul(a, qw)
+                        except Exception as e:  # noqa
+                            out["violations"].append(violation(PID, case, dict(fields, sub="raised"), f"raised: torch.{fn_name} {c} {dtname}: {type(e).__name__}: {str(e)[:200]}"))
+                            continue
+                        for sub, msg in _judge(y, a64, w64.t().contiguous(), None, dt, dtname, True, m, f"torch.{fn_name} {c} {dtname}"):
+                            out["violations"].append(violation(PID, case, dict(fields, sub=sub), f"{sub}: {msg}"))
 
 
 def _large_task(task, out):
